@@ -13,4 +13,12 @@ class CompilerError(Exception):
     def __str__(self):
         return f'{self.filename}:{self.line}:{self.column}:{self.message}'
 
+class CompilerSyntaxError(CompilerError):
+    '''Error thrown when the source is not in the grammar.'''
+    def __init__(self, filename, line, column, msg):
+        self.filename = filename
+        self.line = line
+        self.column = column
+        self.message = msg
+
 
